@@ -116,9 +116,9 @@ def run(ck):
                    "crys.G is the space group (C18); crys.jumpnetwork is complete (C21)"]
     ck.theorems()
     rng = ck.rng
-    ncrys = ck.n(24, 160)
-    coq_budget_states = ck.n(40000, 600000)     # total number of states sent to the model
-    max_case_states = ck.n(800, 1600)
+    ncrys = ck.n(20, 160)
+    coq_budget_states = ck.n(30000, 600000)     # total number of states sent to the model
+    max_case_states = ck.n(600, 1600)
     defs, runs, meta = [], [], []
     spent = 0
     skipped = {"nonpercolating": 0, "construct-failed": 0, "geometry": 0, "coq-budget": 0}
